@@ -1,5 +1,5 @@
 #!/bin/bash
-# tools/seed_confirm.sh <ID> [srcdir]
+# tools/seed_confirm.sh <ID> [srcdir] [name under /verif/seeded, default <ID>]
 # Confirms a seeded change in a fresh scratch worktree of /repo HEAD:
 #   demo passes without the patch; with the patch the workspace builds, the existing
 #   suite shows only the 3 always-failing tests, and the demo fails.
@@ -8,6 +8,7 @@
 set -u
 ID=$1
 SRC=${2:-/tmp/seed_$ID/_seed}
+DEST=${3:-$ID}
 WT=/tmp/sv_$ID
 export CARGO_NET_OFFLINE=true
 export CARGO_TARGET_DIR=/tmp/sv_target_$ID
@@ -38,9 +39,9 @@ git -C /repo worktree remove --force $WT
 rm -rf $CARGO_TARGET_DIR /tmp/sv_$ID.log
 echo "RESULT $ID demo_without=$R0 demo_with=$R1 unexpected_failures=$(echo -n "$FAILS" | wc -l) compile_errors=$CE passed=$NPASS"
 if [ "$R0" = pass ] && [ "$R1" = fail ] && [ -z "$FAILS" ] && [ "$CE" = 0 ]; then
-  mkdir -p /verif/seeded/$ID
-  cp $SRC/patch.diff $SRC/demo.rs /verif/seeded/$ID/
-  python3 - "$SRC/meta.json" "/verif/seeded/$ID/meta.json" "$NPASS" <<'E'
+  mkdir -p /verif/seeded/$DEST
+  cp $SRC/patch.diff $SRC/demo.rs /verif/seeded/$DEST/
+  python3 - "$SRC/meta.json" "/verif/seeded/$DEST/meta.json" "$NPASS" <<'E'
 import json,sys
 try: m=json.load(open(sys.argv[1]))
 except Exception as e: m={"property":None,"note":"agent meta unreadable: %s"%e}
@@ -51,7 +52,7 @@ m["confirmed"]={"by":"tools/seed_confirm.sh in scratch worktree /tmp/sv_<ID> of 
          "demo with patch: FAILED"]}
 json.dump(m,open(sys.argv[2],"w"),indent=1)
 E
-  echo "KEPT /verif/seeded/$ID"
+  echo "KEPT /verif/seeded/$DEST"
 else
   echo "NOT KEPT"
 fi
